@@ -110,7 +110,8 @@ class Model:
                     upd[mname] = ks
             st = SchemaType(ci, props_cls, hook, props, annot, gdef, upd)
             self.schemas[ci.name] = st
-            if hook and ci.qualname.startswith("d42.declaration") and hook not in self.by_hook:
+            if hook and ci.qualname.startswith("d42.declaration") and \
+                    (hook not in self.by_hook or (self.by_hook[hook].props_cls is None and props_cls is not None)):
                 self.by_hook[hook] = st
         if len(self.schemas) < 13:
             raise AnalysisError(f"schema table has only {len(self.schemas)} entries")
